@@ -44,6 +44,15 @@ theorem computeAdj_length (c : CvProc) (rows : List Row) (xrows : List CRow) :
     (computeAdj c rows xrows).length = rows.length := by
   simp [computeAdj]
 
+theorem fromList_range_map (n : Nat) (f g : Nat → CvLvl) (i : Nat) :
+    fromList ((List.range (n + 1)).map f) g i = if i ≤ n then f i else g i := by
+  unfold fromList
+  by_cases h : i ≤ n
+  · have : i < n + 1 := by omega
+    simp [h, this]
+  · have : ¬ i < n + 1 := by omega
+    simp [h, this]
+
 theorem writeFromG_spec {α : Type} (mk : Nat → α) (n : Nat) :
     ∀ (pre : List (Option α)) (cnt : Nat) (post : List (Option α)),
       writeFromG mk pre.length cnt n (pre ++ List.replicate n none ++ post)
@@ -129,7 +138,7 @@ theorem newLevelCv_inv (p : Proc) (c : CvProc) (l d : Nat) :
 theorem iterCv_base (p : Proc) (c : CvProc) (o : Oracle) (s : CvSt) : (iterCv p c o s).base = iter p o s.base := by
   have hh : ∀ t : CvSt, (cvLoopHead t).base = loopHead t.base := by
     intro t; unfold cvLoopHead loopHead; split_ifs <;> rfl
-  unfold iterCv iter
+  unfold iterCv iterCvAfter iter
   simp only
   have e2 : (cvSetDN o.Ns (cvAfterPasses p c s)).base = setDN o.Ns (afterPasses p s.base) := rfl
   rw [e2]
@@ -169,7 +178,7 @@ theorem cvAfterPasses_clean (p : Proc) (c : CvProc) (s : CvSt) (h : CvInv p c s)
   refine ⟨afterPasses_clean p s.base h.1, ?_⟩
   intro l hl
   have hl' : l ≤ s.base.L := hl
-  simp only [cvAfterPasses, afterPasses, hl', if_true]
+  simp only [cvAfterPasses, afterPasses, fromList_range_map, hl', if_true]
   exact passCv_clean p c l _ _ (h.1 l hl') (h.2 l hl')
 
 theorem cvSetDN_clean (p : Proc) (c : CvProc) (Ns : List Nat) (s : CvSt) (h : CvClean p c s) :
@@ -180,7 +189,7 @@ theorem cvExtendAll_setDN_inv (p : Proc) (c : CvProc) (Ns : List Nat) (s : CvSt)
   refine ⟨extendAll_setDN_inv p Ns s.base h.1, ?_⟩
   intro l hl
   have hl' : l ≤ s.base.L := hl
-  simp only [cvExtendAll, cvSetDN, extendAll, setDN, hl', if_true]
+  simp only [cvExtendAll, cvSetDN, extendAll, setDN, fromList_range_map, hl', if_true]
   exact extendCv_inv p c l (s.base.lv l) (s.cv l) _ (h.2 l hl')
 
 theorem cvExtendAll_addLevel_inv (p : Proc) (c : CvProc) (Ns : List Nat) (s : CvSt) (h0 : s.base.newInit = 0)
@@ -188,7 +197,7 @@ theorem cvExtendAll_addLevel_inv (p : Proc) (c : CvProc) (Ns : List Nat) (s : Cv
   refine ⟨extendAll_addLevel_inv p Ns s.base h0 h.1, ?_⟩
   intro l hl
   have hl' : l ≤ s.base.L + 1 := hl
-  simp only [cvExtendAll, cvSetDN, cvAddLevel, extendAll, setDN, addLevel, hl', if_true]
+  simp only [cvExtendAll, cvSetDN, cvAddLevel, extendAll, setDN, addLevel, fromList_range_map, hl', if_true]
   by_cases hnew : l = s.base.L + 1
   · subst hnew; simp only [if_true, h0, Nat.sub_zero]; exact newLevelCv_inv p c _ _
   · simp only [hnew, if_false]
@@ -221,7 +230,7 @@ theorem iterCv_inv (p : Proc) (c : CvProc) (o : Oracle) (s : CvSt) (h0 : s.base.
     | .ret s' => CvClean p c s' := by
   have hc := cvSetDN_clean p c o.Ns _ (cvAfterPasses_clean p c s h)
   have hn : (cvSetDN o.Ns (cvAfterPasses p c s)).base.newInit = 0 := h0
-  unfold iterCv
+  unfold iterCv iterCvAfter
   simp only
   by_cases hsm : small (cvSetDN o.Ns (cvAfterPasses p c s)).base = true
   · rw [if_pos hsm]
@@ -246,6 +255,29 @@ theorem runCv_clean (p : Proc) (c : CvProc) (os : List Oracle) (s : CvSt) (h0 : 
     cases hit : iterCv p c o s with
     | cont s' => rw [hit] at hi; exact ih s' hi.2 hi.1
     | ret s' => rw [hit] at hi; exact hi
+
+/-- **every iteration, with control variates**: at every read point the payoff, control and adjusted arrays of every level
+    are those of exactly the samples simulated so far — so the `ml, vl` handed to the criteria (read from the adjusted
+    arrays, `adjLvl`) are computed from `Y − b (X − price)` over exactly those samples -/
+theorem readsCv_clean (p : Proc) (c : CvProc) (os : List Oracle) (s : CvSt) (h0 : s.base.newInit = 0) (h : CvInv p c s) :
+    ∀ r ∈ readsCv p c os s, CvClean p c r := by
+  induction os generalizing s with
+  | nil => intro r hr; simp [readsCv] at hr
+  | cons o os ih =>
+    intro r hr
+    unfold readsCv at hr
+    rcases List.mem_cons.mp hr with rfl | hr
+    · exact cvAfterPasses_clean p c s h
+    · have hi := iterCv_inv p c o s h0 h
+      cases hit : iterCv p c o s with
+      | cont s' => rw [hit] at hr hi; exact ih s' hi.2 hi.1 r hr
+      | ret s' => rw [hit] at hr; simp at hr
+
+/-- the level record `set_mlmc_results` reads with control variates holds the adjusted rows of exactly the simulated samples -/
+theorem adjLvl_rows (p : Proc) (c : CvProc) (s : CvSt) (h : CvClean p c s) (l : Nat) (hl : l ≤ s.base.L) :
+    (adjLvl s l).rows = computeAdj c (samplesOf p l (s.base.lv l).N) (ctlSamplesOf c l (s.base.lv l).N) ∧
+    (adjLvl s l).N = (s.base.lv l).N ∧ (adjLvl s l).cost = (s.base.lv l).cost :=
+  ⟨(h.2 l hl).2.1, rfl, rfl⟩
 
 /-- the statement for `Engine.price` with control variates from its actual initial state -/
 theorem priceCv_clean (p : Proc) (c : CvProc) (L0 N0 levelMax : Nat) (os : List Oracle) :
@@ -318,8 +350,14 @@ theorem xCol_coarse_samples (c : CvProc) (l N : Nat) : xCol false (ctlSamplesOf 
 
 /-- coefficient vectors the code uses at level l: one for the fine column, one for the coarse column, each from the
     regression kernel on all N rows of the level -/
-def bF (p : Proc) (c : CvProc) (l N : Nat) : Nat → Rat := c.coef N (xF c l N) (yF p l N)
-def bC (p : Proc) (c : CvProc) (l N : Nat) : Nat → Rat := c.coef N (xC c l N) (yC p l N)
+def bF (p : Proc) (c : CvProc) (l N : Nat) : Nat → Rat := fun j => (coefList c N (xF c l N) (yF p l N)).getD j 0
+def bC (p : Proc) (c : CvProc) (l N : Nat) : Nat → Rat := fun j => (coefList c N (xC c l N) (yC p l N)).getD j 0
+
+/-- for the k controls these are the kernel's values -/
+theorem bF_eq (p : Proc) (c : CvProc) (l N j : Nat) (hj : j < c.k) : bF p c l N j = c.coef N (xF c l N) (yF p l N) j := by
+  simp [bF, coefList, hj]
+theorem bC_eq (p : Proc) (c : CvProc) (l N j : Nat) (hj : j < c.k) : bC p c l N j = c.coef N (xC c l N) (yC p l N) j := by
+  simp [bC, coefList, hj]
 
 /-- **adjusted row i = Y_i − Σ_j b_j (X_{j,i} − price_j)**, fine and coarse column, over the samples simulated at the level -/
 theorem cv_adj_row (p : Proc) (c : CvProc) (l : Nat) (lv : Lvl) (cl : CvLvl) (hc : CvLvlClean p c l lv cl)
@@ -328,14 +366,16 @@ theorem cv_adj_row (p : Proc) (c : CvProc) (l : Nat) (lv : Lvl) (cl : CvLvl) (hc
                              Stats.adjustK c.k (bC p c l lv.N) c.price (xC c l lv.N) (yC p l lv.N) i⟩) := by
   rw [hc.2.1]
   simp only [computeAdj, samplesOf_length, yCol_fine_samples, yCol_coarse_samples, xCol_fine_samples,
-    xCol_coarse_samples, adjustCol, bF, bC]
+    xCol_coarse_samples, adjustCol]
   simp [hi]
+  exact ⟨rfl, rfl⟩
 
 /-! ### consequences: the reported price -/
 
 theorem meanOf_adj_fine (c : CvProc) (rows : List Row) (xrows : List CRow) :
     meanOf rowFine (computeAdj c rows xrows)
-      = Stats.mean rows.length (adjustCol c rows.length (xCol true xrows) (yCol rowFine rows)) := by
+      = Stats.mean rows.length (adjustCol c (coefList c rows.length (xCol true xrows) (yCol rowFine rows))
+          (xCol true xrows) (yCol rowFine rows)) := by
   unfold meanOf Stats.mean Stats.sumTo
   rw [computeAdj_length]
   simp only [computeAdj, List.map_map]
@@ -343,7 +383,8 @@ theorem meanOf_adj_fine (c : CvProc) (rows : List Row) (xrows : List CRow) :
 
 theorem meanOf_adj_coarse (c : CvProc) (rows : List Row) (xrows : List CRow) :
     meanOf rowCoarse (computeAdj c rows xrows)
-      = Stats.mean rows.length (adjustCol c rows.length (xCol false xrows) (yCol rowCoarse rows)) := by
+      = Stats.mean rows.length (adjustCol c (coefList c rows.length (xCol false xrows) (yCol rowCoarse rows))
+          (xCol false xrows) (yCol rowCoarse rows)) := by
   unfold meanOf Stats.mean Stats.sumTo
   rw [computeAdj_length]
   simp only [computeAdj, List.map_map]
@@ -364,7 +405,8 @@ theorem price_cv_is_sum_of_adjusted_means (p : Proc) (c : CvProc) (s : CvSt) (h 
   have hl' : l ≤ s.base.L := by have := List.mem_range.mp hl; omega
   rw [(h.2 l hl').2.1, meanOf_adj_fine, meanOf_adj_coarse]
   simp only [samplesOf_length, yCol_fine_samples, yCol_coarse_samples, xCol_fine_samples, xCol_coarse_samples,
-    adjustCol, bF, bC]
+    adjustCol]
+  rfl
 
 /-! ### `cv_mean_identity` at the multilevel level -/
 
@@ -425,14 +467,18 @@ theorem cv_mean_identity_mlmc (p : Proc) (c : CvProc) (s : CvSt) (h : CvClean p 
 /-- the exact one-control kernel returns 0 on the level-0 coarse column (the controls are identically zero there: the
     guard `|var X| < 1e-12` of `helper_compute_coefficients` fires) -/
 theorem coef1_level0_coarse (p : Proc) (c : CvProc) (N : Nat) (hk : c.coef = coef1) (j : Nat) : bC p c 0 N j = 0 := by
-  unfold bC
-  rw [hk]
+  by_cases hj : j < c.k
+  swap
+  · simp [bC, coefList, hj]
+  rw [bC_eq p c 0 N j hj, hk]
   have hx : xC c 0 N 0 = fun _ => 0 := by funext i; simp [xC]
   show Stats.bStar N (xC c 0 N 0) (yC p 0 N) = 0
   rw [hx]
   unfold Stats.bStar
   have hv : Stats.varB N (fun _ => (0 : Rat)) = 0 := by
-    unfold Stats.varB Stats.covB Stats.mean
+    unfold Stats.varB
+    rw [Stats.covB_def]
+    unfold Stats.mean
     simp [Stats.sumTo_const]
   rw [hv]
   simp [Stats.rabs, Stats.guard]
